@@ -108,3 +108,58 @@ pub mod chrono {
         #[verifier::external_body]
         fn sub(self, rhs: DateTime<FixedOffset>) -> (r: Duration) ensures dur_ns(r) == ts_ns(self) - ts_ns(rhs) { unimplemented!() } }
 }
+// ---- calendar fields of a timestamp at its own offset (chrono::Datelike / Timelike; all ASSUMED, uninterpreted) ----
+pub mod chrono_fields {
+    use super::*;
+    use super::chrono::*;
+    pub uninterp spec fn ts_year(t: DateTime<FixedOffset>) -> int;
+    pub uninterp spec fn ts_month(t: DateTime<FixedOffset>) -> int;        // 1..=12
+    pub uninterp spec fn ts_day(t: DateTime<FixedOffset>) -> int;          // 1..=31
+    pub uninterp spec fn ts_ordinal(t: DateTime<FixedOffset>) -> int;      // day of year, 1..=366
+    pub uninterp spec fn ts_weekday_sun0(t: DateTime<FixedOffset>) -> int; // 0 = Sunday .. 6 = Saturday
+    pub uninterp spec fn ts_hour(t: DateTime<FixedOffset>) -> int;
+    pub uninterp spec fn ts_minute(t: DateTime<FixedOffset>) -> int;
+    pub uninterp spec fn ts_second(t: DateTime<FixedOffset>) -> int;
+    pub uninterp spec fn ts_millis(t: DateTime<FixedOffset>) -> int;       // 0..=999 (1999 during a leap second)
+    #[verifier::external_body] pub struct Weekday { _p: u8 }
+    #[verifier::external_body] pub struct Days { _p: u64 }
+    #[verifier::external_body] pub struct Months { _p: u32 }
+    pub uninterp spec fn days_n(d: Days) -> int;
+    pub uninterp spec fn months_n(m: Months) -> int;
+    pub uninterp spec fn wd_sun0(w: Weekday) -> int;
+    /// `t` moved back to the first day of its month / to January of its year (same time of day): uninterpreted
+    pub uninterp spec fn first_of_month(t: DateTime<FixedOffset>) -> DateTime<FixedOffset>;
+    pub uninterp spec fn first_of_year(t: DateTime<FixedOffset>) -> DateTime<FixedOffset>;
+    impl Days { #[verifier::external_body] pub fn new(n: u64) -> (r: Days) ensures days_n(r) == n { unimplemented!() } }
+    impl Months { #[verifier::external_body] pub fn new(n: u32) -> (r: Months) ensures months_n(r) == n { unimplemented!() } }
+    impl Weekday { #[verifier::external_body] pub fn num_days_from_sunday(&self) -> (r: u32) ensures r == wd_sun0(*self), r <= 6 { unimplemented!() } }
+    impl DateTime<FixedOffset> {
+        #[verifier::external_body] pub fn year(&self) -> (r: i32) ensures r == ts_year(*self) { unimplemented!() }
+        #[verifier::external_body] pub fn month(&self) -> (r: u32) ensures r == ts_month(*self), 1 <= r <= 12 { unimplemented!() }
+        #[verifier::external_body] pub fn month0(&self) -> (r: u32) ensures r == ts_month(*self) - 1, r <= 11 { unimplemented!() }
+        #[verifier::external_body] pub fn day(&self) -> (r: u32) ensures r == ts_day(*self), 1 <= r <= 31 { unimplemented!() }
+        #[verifier::external_body] pub fn day0(&self) -> (r: u32) ensures r == ts_day(*self) - 1, r <= 30 { unimplemented!() }
+        #[verifier::external_body] pub fn ordinal(&self) -> (r: u32) ensures r == ts_ordinal(*self), 1 <= r <= 366 { unimplemented!() }
+        #[verifier::external_body] pub fn ordinal0(&self) -> (r: u32) ensures r == ts_ordinal(*self) - 1, r <= 365 { unimplemented!() }
+        #[verifier::external_body] pub fn weekday(&self) -> (r: Weekday) ensures wd_sun0(r) == ts_weekday_sun0(*self) { unimplemented!() }
+        #[verifier::external_body] pub fn hour(&self) -> (r: u32) ensures r == ts_hour(*self), r <= 23 { unimplemented!() }
+        #[verifier::external_body] pub fn minute(&self) -> (r: u32) ensures r == ts_minute(*self), r <= 59 { unimplemented!() }
+        #[verifier::external_body] pub fn second(&self) -> (r: u32) ensures r == ts_second(*self), r <= 59 { unimplemented!() }
+        #[verifier::external_body] pub fn timestamp_subsec_millis(&self) -> (r: u32) ensures r == ts_millis(*self), r <= 1999 { unimplemented!() }
+        /// going back to the first day of the own month / own year never leaves the representable range (same year)
+        #[verifier::external_body] pub fn checked_sub_days(self, d: Days) -> (r: Option<DateTime<FixedOffset>>)
+            ensures days_n(d) == ts_day(self) - 1 ==> r == Some(first_of_month(self)) { unimplemented!() }
+        #[verifier::external_body] pub fn checked_sub_months(self, m: Months) -> (r: Option<DateTime<FixedOffset>>)
+            ensures (ts_day(self) == 1 && months_n(m) == ts_month(self) - 1) ==> r == Some(first_of_year(self)) { unimplemented!() }
+    }
+    impl Duration {
+        #[verifier::external_body] pub fn num_days(&self) -> (r: i64) ensures r == (if dur_ns(*self) >= 0 { dur_ns(*self) / 86_400_000_000_000 } else { -((-dur_ns(*self)) / 86_400_000_000_000) }) { unimplemented!() }
+    }
+    /// calendar facts (ASSUMED): the first of the month has the same month and day 1; the distance to January 1st of the own year
+    /// (same time of day) is ordinal-1 whole days
+    #[verifier::external_body]
+    pub broadcast proof fn axiom_first_of_month(t: DateTime<FixedOffset>)
+        ensures ts_day(#[trigger] first_of_month(t)) == 1, ts_month(first_of_month(t)) == ts_month(t), first_of_year(first_of_month(t)) == first_of_year(t),
+                ts_ns(t) - ts_ns(first_of_year(t)) == (ts_ordinal(t) - 1) * 86_400_000_000_000
+    {}
+}
